@@ -6,14 +6,15 @@
   (`List.Perm`), "all schedules of a whole expression" is the relation `Resched` below.
 
   Sites and their model functions:
-    recordLiteralEval.Eval  (first-error-order-leaks)  evalRecordLitOrd          = what `eval (.record kes)` does
+    recordLiteralEval.Eval  (sorted-after since the repair)  evalRecordLitOrd   = what `eval (.record kes)` does
     containsAll/AnyEval     (quantifier)               containsAllLoop / containsAnyLoop
-    doInEval, set form      (first-error-order-leaks, message only)  inSetFirstBad + `doIn`
+    doInEval, set form      (sorted-after since the repair: the conversion error that sorts first)  inSetFirstBad + `doIn`
     entityInOne/InSet       (quantifier over parents)  Hierarchy.lean (parents list = map order)
     Authorize               (builds sets)              authorizeWith over the yielded policy sequence
     PolicySet.MarshalCedar, Record/Set marshal, EntityMap/Entity JSON, schema printers (sorted-after)
                                                         encodeSorted = render ∘ sort ∘ (map order)
-    recordJSON.ToNode, Policy.UnmarshalJSON annotations (order-leaks)   decodeRecordJsonOrd / decodeAnnotationsOrd
+    recordJSON.ToNode, Policy.UnmarshalJSON annotations (sorted-after since the repair)   decodeRecordJsonOrd / decodeAnnotationsOrd
+    coerceSet (x/exp/types)  (sorted-after since the repair)   coerceSetOrd
 -/
 import CedarGo.Model.Fold
 import CedarGo.Model.PolicySet
@@ -31,6 +32,8 @@ def sortBy {α : Type} (le : α → α → Bool) : List α → List α
 
 /-- byte-wise string order (`slices.Sort` on `[]string` / `[]PolicyID` / record keys) -/
 def strLe (a b : String) : Bool := decide (a ≤ b)
+/-- the order `slices.Sorted(maps.Keys(m))` induces on the entries of a string-keyed map: by key -/
+def keyLe {α : Type} (a b : String × α) : Bool := strLe a.1 b.1
 /-- `slices.Sort` on the `uint64` slot numbers of a `types.Set` -/
 def natLe (a b : Nat) : Bool := decide (a ≤ b)
 /-- `Entity.MarshalJSON`: parents compared by type, then by id -/
@@ -60,10 +63,12 @@ def marshalParentsOrd (render : UID → String) (parentsInMapOrder : List UID) :
 
 /-! ## Evaluation sites -/
 
-/-- `recordLiteralEval.Eval`: the entries are evaluated in the order the Go map yields them, the first
-    error is returned; otherwise the values are stored in a `RecordMap` (`mkRecord`). -/
+/-- `recordLiteralEval.Eval` (repaired): `for _, k := range slices.Sorted(maps.Keys(n.elements))` — whatever order
+    the Go map yields its entries in, they are evaluated in ascending key order (`canonKVs`: the entries of the
+    map, i.e. the last entry of every key, by key), the first error is returned; otherwise the values are stored
+    in a `RecordMap` (`mkRecord`). -/
 def evalRecordLitOrd (kesInMapOrder : List (String × Expr)) (env : Env) : Res :=
-  match evalKVs kesInMapOrder env with
+  match evalKVs (canonKVs kesInMapOrder) env with
   | .error e => .error e
   | .ok kvs => .ok (mkRecord kvs)
 
@@ -77,12 +82,24 @@ def containsAnyLoop (lhs : List Value) : List Value → Bool
   | [] => false
   | e :: es => if e.memL lhs then true else containsAnyLoop lhs es
 
-/-- `doInEval`, set case: `ValueToEntity` fails on the first non-entity member in iteration order; its
-    message names that member's type (`TypeName`): this is the model's stand-in for the message. -/
-def inSetFirstBad : List Value → Option String
-  | [] => none
-  | .entity _ _ :: xs => inSetFirstBad xs
-  | v :: _ => some v.kind
+/-- `eval.TypeName` of a value (what the message of a failed conversion names) -/
+def goTypeName : Value → String
+  | .bool _ => "bool" | .decimal _ => "decimal" | .datetime _ => "datetime"
+  | .entity t _ => "(entity of type `" ++ t ++ "`)"
+  | .ip _ => "IP" | .long _ => "long" | .record _ => "record" | .set _ => "set" | .str _ => "string"
+  | .duration _ => "unknown type"
+
+/-- the type name in the message of `ValueToEntity` for a member that is not an entity -/
+def nonEntityName : Value → Option String
+  | .entity _ _ => none
+  | v => some (goTypeName v)
+
+/-- `doInEval`, set case (repaired): every member is converted in the order the set yields them; of the conversion
+    errors the one whose MESSAGE SORTS FIRST is returned.  The messages are a fixed text followed by
+    `TypeName(member)`: the model's stand-in for the message is that name, and "the message that sorts first" is the
+    head of the sorted names. -/
+def inSetFirstBad (membersInMapOrder : List Value) : Option String :=
+  (sortBy strLe (membersInMapOrder.filterMap nonEntityName)).head?
 
 /-! ## `types.NewSet`: open addressing — where colliding members land depends on the insertion order -/
 
@@ -101,17 +118,20 @@ def assignSlots {α : Type} : List (Nat × α) → List (Nat × α) → List (Na
 def setRenderOrder {α : Type} (membersInInsertionOrder : List (Nat × α)) : List α :=
   (sortBy (fun a b => natLe a.1 b.1) (assignSlots [] membersInInsertionOrder)).map (·.2)
 
-/-- `coerceSet` (x/exp/types): the coerced members are collected in `Set.All()` (Go map) order and given to `NewSet` -/
-def coerceSetOrd {α : Type} (membersInMapOrder : List (Nat × α)) : List α := setRenderOrder membersInMapOrder
+/-- `coerceSet` (x/exp/types, repaired): the coerced members are collected in `Set.All()` (Go map) order, SORTED by
+    their Cedar text (`MarshalCedar`; a member is identified with that text here) and given to `NewSet` -/
+def coerceSetOrd (hash : String → Nat) (membersInMapOrder : List String) : List String :=
+  setRenderOrder ((sortBy strLe membersInMapOrder).map (fun m => (hash m, m)))
 
-/-! ## JSON policy decoder: Go map iteration order ends up in the AST -/
+/-! ## JSON policy decoder (repaired): the entries of a Go map are listed by key -/
 
-/-- `recordJSON.ToNode`: `for k, v := range j { nodes = append(nodes, Pair{k, v}) }` -/
-def decodeRecordJsonOrd (entriesInMapOrder : List (String × Expr)) : Expr := .record entriesInMapOrder
+/-- `recordJSON.ToNode`: `for _, k := range slices.Sorted(maps.Keys(j)) { nodes = append(nodes, Pair{k, j[k]}) }`
+    (`canonKVs`: the entries of the map by key, whatever order the map yields them in) -/
+def decodeRecordJsonOrd (entriesInMapOrder : List (String × Expr)) : Expr := .record (canonKVs entriesInMapOrder)
 
-/-- `Policy.UnmarshalJSON`: `for k, v := range j.Annotations { p.Annotate(k, v) }` -/
+/-- `Policy.UnmarshalJSON`: `for _, k := range slices.Sorted(maps.Keys(j.Annotations)) { p.Annotate(k, …) }` -/
 def decodeAnnotationsOrd (p : Policy) (annotationsInMapOrder : List (String × String)) : Policy :=
-  { p with annotations := annotationsInMapOrder }
+  { p with annotations := canonKVs annotationsInMapOrder }
 
 /-- the order in which `MarshalCedar` prints the entries of a record literal: AST order -/
 def cedarRecordKeyOrder : Expr → List String
@@ -182,7 +202,8 @@ def perms {α : Type} : List α → List (List α)
   | [] => [[]]
   | x :: xs => (perms xs).flatMap (insertEverywhere x)
 
-/-- every result `recordLiteralEval.Eval` can produce for this literal: one per iteration order -/
+/-- every result `recordLiteralEval.Eval` can produce for this literal: one per iteration order (all equal since
+    the repair: `C14_evalRecordLit_order_indep`) -/
 def recordLitOutcomes (kes : List (String × Expr)) (env : Env) : List Res :=
   (perms kes).map (fun σ => evalRecordLitOrd σ env)
 
